@@ -45,20 +45,34 @@ def run(repo, rep):
             probs.append('not exactly one receive per iteration')
         if kind == 'stop':
             n_stop += 1
-            pend = [cn for cn in s.conds if cn.endswith('.is_pending')]
-            if not is_get or not any(cn.startswith('-') for cn in pend):
+            from ..status_model import allowed_types, status_tokens
+            toks = status_tokens(s.conds)
+            types = allowed_types(s.conds, toks[0], repo) if toks else None
+            if not is_get or types is None or 'Pending' in types:
                 probs.append('the loop is left on something else than a non-pending C-GET response [%s]' % ' '.join(s.conds)[:200])
             else:
-                tok = pend[0][1:].rsplit('.', 1)[0]
+                tok = toks[0]
                 sf = dict((f_, v) for t, f_, v in s.heap if t == tok)
                 if sf.get('@value') != '%s.status' % rq or sf.get('@command') != 'dimsemessages.CGetRSPMessage':
                     probs.append('the final status is classified as %s' % sf)
+        if kind == 'next' and is_get:
+            from ..status_model import allowed_types, status_tokens
+            toks = status_tokens(s.conds)
+            types = allowed_types(s.conds, toks[0], repo) if toks else None
+            if types is not None and types != {'Pending'}:
+                probs.append('the loop goes on after a C-GET response that is not pending (%s): it waits for messages that never come'
+                             % ('/'.join(sorted(types)) or 'no type'))
         if is_store:
             n_store += 1
             if len(sn) != 1 or token_class(sn[0].args[0]) != 'CStoreRSPMessage':
                 probs.append('%d responses for a received C-STORE request' % len(sn))
             elif sn[0].args[1] != 'asce.receive()[1]':
                 probs.append('C-STORE response sent on %s, not on the context the request arrived on' % sn[0].args[1])
+            else:
+                mid = sn[0].fields(sn[0].args[0]).get('message_id_being_responded_to')
+                if mid != '%s.message_id' % rq:
+                    probs.append('the C-STORE response answers message id %s, not the id of the C-STORE request just received: '
+                                 'the sub-operation the peer is waiting on is never answered' % mid)
             if len(ys) > 1:
                 probs.append('an instance is yielded %d times' % len(ys))
             if kind == 'stop':
